@@ -1,5 +1,73 @@
 import DaliVerif.Spec.GearBus
-/-! placeholder, filled in below -/
+/-!
+# C07 — what the property says about a commissioning run, as a decidable check
+
+`commCheck` takes the initial specification bus, the caller's arguments and an observation
+(result / exception class, commands in order, final bus) and returns the list of clauses of the
+property that the observation violates (`[]` = all hold).  It is written from the property text:
+
+* `ends`      a normal return ends with TERMINATE and leaves every unit's initialisationState DISABLED
+* `raise`     the only exception is ProgramShortAddressFailure, and only when not a dry run and some
+              unit is faulty (does not store / does not verify)
+* `distinct`  the addresses handed out (PROGRAM SHORT ADDRESS arguments, in order) are pairwise distinct
+* `permitted` … lie in the permitted list, in its order, skipping those in use
+* `inuse`     … avoid every address in use before the run (when not re-addressing)
+* `others`    non-participants (addressed units when not re-addressing) keep their address
+* `dry`       a dry run changes no short address and programs nothing
+* `count`     a normal non-dry return on a fault-free bus handed out min(#participants, #permitted left)
+* `holds`     … and, when no re-randomisation happened, the participants hold exactly those addresses,
+              pairwise distinct, the first found first (the re-draw hazard of DESIGN §6 needs a second round)
+* `bound`     at most `rounds · (n + 1) · 202 + 140` commands for `rounds` RANDOMISE rounds on `n` units
+-/
 namespace DaliVerif.GearSeq
-def commVerdict (_b : Bus) (_av : Option (List Nat)) (_re _dry : Bool) (_o : Out Bus Unit) : String := "n/a"
+
+def progArgs (t : List Cmd) : List Nat :=
+  t.filterMap (fun c => match c with | .programShort a => some a | _ => none)
+
+def countRandomise (t : List Cmd) : Nat := (t.filter (· == .randomise)).length
+
+def nodupB : List Nat → Bool
+  | [] => true
+  | x :: xs => !xs.contains x && nodupB xs
+
+def commCheck (b : Bus) (av : Option (List Nat)) (re dry : Bool) (o : Out Bus Unit) : List String :=
+  let avail0 := av.getD (List.range 64)
+  let inUse := b.filterMap (·.short)
+  let avail' := if re then avail0 else avail0.filter (fun a => !inUse.contains a)
+  let P := progArgs o.trace
+  let faulty := b.any (fun u => u.noStore || u.noVerify)
+  let parts := b.filter (fun u => re || u.short.isNone)
+  let n := b.length
+  let rounds := countRandomise o.trace
+  let pairs := b.zip o.st
+  let c (name : String) (ok : Bool) : List String := if ok then [] else [name]
+  c "ends" (match o.res with
+      | .ret _ => o.trace.getLast? == some .terminate && o.st.all (fun u => u.init == .disabled)
+      | _ => true) ++
+  c "raise" (match o.res with
+      | .ret _ => true
+      | .raised e => e == .ProgramShortAddressFailure && !dry && faulty
+      | .outOfFuel => false) ++
+  c "distinct" (nodupB P) ++
+  c "permitted" (P == avail'.take P.length) ++
+  c "inuse" (re || P.all (fun a => !inUse.contains a)) ++
+  c "others" (b.length == o.st.length &&
+      (re || pairs.all (fun (u, u') => u.short.isNone || u'.short == u.short))) ++
+  c "dry" (!dry || (P.isEmpty && pairs.all (fun (u, u') => u'.short == u.short))) ++
+  c "count" (match o.res with
+      | .ret _ => dry || faulty || P.length == min parts.length avail'.length
+      | _ => true) ++
+  c "holds" (match o.res with
+      | .ret _ =>
+        dry || faulty || rounds != 1 ||
+          (let held := (pairs.filter (fun (u, _) => re || u.short.isNone)).filterMap (fun (_, u') => u'.short)
+           held.length == P.length && nodupB held && held.all (fun a => P.contains a))
+      | _ => true) ++
+  c "bound" (o.trace.length ≤ rounds * (n + 1) * 202 + 140)
+
+def commVerdict (b : Bus) (av : Option (List Nat)) (re dry : Bool) (o : Out Bus Unit) : String :=
+  match commCheck b av re dry o with
+  | [] => "ok"
+  | l => "FAIL:" ++ ",".intercalate l
+
 end DaliVerif.GearSeq
